@@ -228,7 +228,16 @@ func (d *driver) enc(e *cbor.Encoder, n *Node, w *bytes.Buffer) bool {
 		entries := make([]*cbor.MapEntryEncoder, 0, len(order))
 		for _, idx := range order {
 			ent := n.Entries[idx]
+			// The entry API hands out two independent encoders; a caller may fill them in either order
+			// (a third of the entries, depending on the variant, get their value first).
+			valueFirst := (d.variant+idx)%3 == 1
 			me := cbor.GenerateMapEntry(func(keyE, valueE *cbor.Encoder) {
+				if valueFirst {
+					if d.enc(valueE, ent.V, nil) {
+						d.enc(keyE, ent.K, nil)
+					}
+					return
+				}
 				if d.enc(keyE, ent.K, nil) {
 					d.enc(valueE, ent.V, nil)
 				}
